@@ -74,7 +74,7 @@ class ClassRef:
 _SAFE_BUILTINS: dict[str, Callable] = {
     "len": len, "range": range, "str": str, "int": int, "bool": bool, "tuple": tuple, "list": list,
     "set": set, "frozenset": frozenset, "sorted": sorted, "max": max, "min": min, "abs": abs, "all": all,
-    "any": any, "sum": sum, "enumerate": enumerate, "zip": zip, "reversed": reversed, "dict": dict,
+    "any": any, "sum": sum, "enumerate": enumerate, "zip": zip, "reversed": reversed, "dict": dict, "map": map, "filter": filter,
     "repr": repr, "float": float,
 }
 _SAFE_METHODS = {
@@ -310,6 +310,13 @@ class Evaluator:
             return self.run_body(f.node.body, env)
         if callable(f) and (f in _SAFE_BUILTINS.values() or getattr(f, "__self__", None) is not None
                             or getattr(f, "_sa_safe", False)):
+            # closures handed to builtins (sorted(key=...), map, filter, max(key=...)) become python callables
+            def wrap(v):
+                if isinstance(v, Closure):
+                    return lambda *a, _c=v: self.call(_c, list(a), {})
+                return v
+            args = [wrap(a) for a in args]
+            kwargs = {k: wrap(v) for k, v in kwargs.items()}
             try:
                 return f(*args, **kwargs)
             except Unknown:
